@@ -115,6 +115,70 @@ func ConstInt(pkg *packages.Package, e ast.Expr) (int64, bool) {
 	return v, ok
 }
 
+// ConstIntVia is ConstInt that also looks through local variables with exactly one
+// definition inside scope (var x T = e, or x := e) and no other assignment.
+func ConstIntVia(pkg *packages.Package, scope ast.Node, e ast.Expr) (int64, bool) {
+	for depth := 0; depth < 6; depth++ {
+		if k, ok := ConstInt(pkg, e); ok {
+			return k, true
+		}
+		id, ok := Unparen(e).(*ast.Ident)
+		if !ok {
+			return 0, false
+		}
+		obj := pkg.TypesInfo.ObjectOf(id)
+		if obj == nil {
+			return 0, false
+		}
+		var def ast.Expr
+		defs, writes := 0, 0
+		ast.Inspect(scope, func(n ast.Node) bool {
+			switch x := n.(type) {
+			case *ast.ValueSpec:
+				for i, nm := range x.Names {
+					if pkg.TypesInfo.ObjectOf(nm) == obj {
+						defs++
+						if len(x.Values) == len(x.Names) {
+							def = x.Values[i]
+						}
+					}
+				}
+			case *ast.AssignStmt:
+				for i, l := range x.Lhs {
+					li, isID := l.(*ast.Ident)
+					if !isID || pkg.TypesInfo.ObjectOf(li) != obj {
+						continue
+					}
+					if x.Tok == token.DEFINE && pkg.TypesInfo.Defs[li] == obj {
+						defs++
+						if len(x.Rhs) == len(x.Lhs) {
+							def = x.Rhs[i]
+						}
+					} else {
+						writes++
+					}
+				}
+			case *ast.IncDecStmt:
+				if li, isID := x.X.(*ast.Ident); isID && pkg.TypesInfo.ObjectOf(li) == obj {
+					writes++
+				}
+			case *ast.UnaryExpr:
+				if x.Op == token.AND {
+					if li, isID := x.X.(*ast.Ident); isID && pkg.TypesInfo.ObjectOf(li) == obj {
+						writes++
+					}
+				}
+			}
+			return true
+		})
+		if defs != 1 || writes != 0 || def == nil {
+			return 0, false
+		}
+		e = def
+	}
+	return 0, false
+}
+
 // ConstString evaluates an expression to a string constant.
 func ConstString(pkg *packages.Package, e ast.Expr) (string, bool) {
 	tv, ok := pkg.TypesInfo.Types[e]
